@@ -482,7 +482,7 @@ static const char *SETTER[] = {"asm_mov_imm", "asm_sib_index_base_swap", "asm_si
 static std::string valname(int v) { return v == 0 ? "STRICT" : v == 1 ? "NASM" : v == 2 ? "SMART" : v == -2 ? "(two probes of this dimension disagree)" : v == -3 ? "(the probe lines assembled in one call differ from the same lines one by one)" : std::to_string(v); }
 struct Obs { int mov = -1, swap = -1, nobase = -1; std::string err; };
 // observe the effective options of an instance through probe lines (classified with the decoder)
-static Obs observe(assemblyline_t a, uint8_t *buf, bool alias = false) {
+static Obs observe(assemblyline_t a, uint8_t *buf, bool alias = false, unsigned sel = 0) {
   Obs o; int saved = asm_get_offset(a);
   auto probe = [&](const char *line, x86::Insn &I) { asm_set_offset(a, 0); if ((alias ? assemble_str(a, line) : asm_assemble_str(a, line)) != 0) { o.err = std::string("probe failed: ") + line; return false; } int n = asm_get_offset(a); I = x86::decode(buf, n); if (!I.ok) { o.err = std::string("probe undecodable: ") + line; return false; } return true; };
   x86::Insn a1, a2, s1, n1, n2, s2;
@@ -494,6 +494,15 @@ static Obs observe(assemblyline_t a, uint8_t *buf, bool alias = false) {
     // the option is one switch for every shape it governs: [1*reg] follows [2*reg], [r12d+esp+8] follows [rax+rsp]
     if ((n2.ops[1].mem.base >= 0 ? 1 : 0) != o.nobase) o.nobase = -2;
     if ((s2.ops[0].mem.index >= 0 ? 1 : 0) != o.swap) o.swap = -2;
+    // ... and so does every other instruction class and register: a rotating third probe per SIB dimension (its code must be exactly one instruction)
+    { static const char *NB2[] = {"movzx eax, byte [2*rbp]", "mov ah, [2*rbp]", "vpaddd ymm1, ymm2, [2*rbp]", "adcx r9, [2*r13]", "add byte [2*rbp], 1", "movzx r9d, word [2*r13d]", "cmp bh, [2*rbp]", "movq xmm9, [2*r13]", "imul rcx, [2*rbp], 7", "mov [2*rbp], ch"};
+      static const char *NB1[] = {"movzx rcx, byte [1*r12]", "mov bh, [1*rbp]", "vpxor xmm1, xmm2, [1*r13]", "add word [1*rbx], 3", "movzx eax, byte [1*r13]", "mulx rax, rbx, [1*r12]", "mov dh, [1*ebp]", "setne [1*rbp]", "sub [1*rbp], ch", "movd xmm3, [1*r12]"};
+      static const char *SW[] = {"movzx eax, word [r13+rsp]", "mov ah, [rbp+rsp]", "vpaddd ymm1, ymm2, [r12+rsp+8]", "movzx ecx, byte [ebp+esp]", "add qword [r13+rsp-0x80], 1", "cmp ch, [rbp+rsp]", "adox rax, [rbp+rsp]", "mov [ebp+esp], dh", "lea rax, [r12+rsp+0x1000]", "paddb mm1, [rbp+rsp]"};
+      auto memof = [](const x86::Insn &I, x86::Mem &m) { for (auto &op : I.ops) if (op.k == K_MEM) { m = op.mem; return true; } return false; };
+      auto third = [&](const char *line, int dim) { x86::Insn I; if (!probe(line, I)) return; x86::Mem m; int n = asm_get_offset(a);
+        if (I.len != n || !memof(I, m)) { o.err = std::string("probe does not assemble to exactly one instruction with a memory operand: ") + line; return; }
+        int cls = dim == 0 ? (m.base >= 0 ? 1 : 0) : (m.index >= 0 ? 1 : 0); int &have = dim == 0 ? o.nobase : o.swap; if (have >= 0 && cls != have) have = -2; };
+      if (o.err.empty()) third(NB2[sel % 10], 0); if (o.err.empty()) third(NB1[(sel / 10) % 10], 0); if (o.err.empty()) third(SW[(sel / 100) % 10], 1); }
     // the options hold for every line of a call: the probes assembled together (in two orders) give the concatenation of what they give one by one
     static const char *PL[] = {"mov rax, 0x7fffffff", "mov rax, 0x000000007fffffff", "lea r15, [rax+rsp]", "lea r15, [2*rax]", "lea r15, [1*rcx]", "add dword [r12d+esp+8], 1"};
     for (int order = 0; order < 2 && o.err.empty(); order++) {
@@ -516,7 +525,7 @@ static HV check12(const std::vector<SetCmd> &h, int ninst) {
   std::vector<std::vector<uint8_t>> bufs(ninst, std::vector<uint8_t>(256, 0)); std::vector<assemblyline_t> as(ninst); std::vector<Model> ms(ninst);
   for (int i = 0; i < ninst; i++) { al::heap_fill((unsigned)h.size() * 3u + (unsigned)i * 5u + (h.empty() ? 0u : (unsigned)h[0].value + (unsigned)h[0].setter)); as[i] = asm_create_instance(bufs[i].data(), 256); }
   auto verify = [&](const std::string &when) -> bool {
-    for (int i = 0; i < ninst; i++) { Obs o = observe(as[i], bufs[i].data(), ((h.size() + i + when.size()) & 3) == 3);
+    for (int i = 0; i < ninst; i++) { Obs o = observe(as[i], bufs[i].data(), ((h.size() + i + when.size()) & 3) == 3, (unsigned)(hz::fnv(ser12(h, ninst)) % 1000 + when.size() * 7 + i * 13));
       if (!o.err.empty()) { bad("probe", o.err + " " + when); return false; }
       if (o.mov != ms[i].mov || o.swap != ms[i].swap || o.nobase != ms[i].nobase) { bad("options", "instance " + std::to_string(i) + " " + when + ": behaves as mov=" + valname(o.mov) + " swap=" + valname(o.swap) + " nobase=" + valname(o.nobase) + " ; documented: mov=" + valname(ms[i].mov) + " swap=" + valname(ms[i].swap) + " nobase=" + valname(ms[i].nobase)); return false; } }
     return true; };
